@@ -2,6 +2,8 @@
 #  S1 Verified* objects are constructed only in the verifier, behind the pass edge of the root comparison
 #  S2 every Ok returned by a confirm_* depends on a scope predicate
 #  S3 every documented rejection reason has a raising site on the verifier's path
+import re
+
 from core import trace, roots, CheckBroken
 import panicfree
 
@@ -313,4 +315,61 @@ def s4(facts, rep):
                   n += 1
                   rep.check(not probs, "S4", short, "%s-covers-input" % variant, "the loop that raises %s iterates over %s: elements outside that view are accepted unchecked" % (variant, " and ".join(sorted(set(probs)))), site=drv[1].get("ln"), detail="loop at %s driven by %s" % (drv[1].get("ln"), " <- ".join(names[:6]) or "the collection itself"))
         # a guard outside any loop (e.g. `ops.iter().is_sorted..` style predicates) is judged by S2 / the C18 precondition
+    return n
+
+
+# ---- S5: a value confirmation compares the WHOLE expected leaf with the proven terminal ---------------------------------------
+#
+# The scope predicates only match the first `depth` bits of the key; `confirm_value` must still compare the full key path and
+# the value hash of the expected leaf with the proven leaf - otherwise any absent key under a leaf terminal is "confirmed" with
+# that leaf's value.  Rule: in each confirm_value* function (with its closures and nomt_core helpers) there is an equality on
+# operands of type LeafData, or equalities on whole-array operands that cover both LeafData.key_path and LeafData.value_hash.
+
+S5_ENTRIES = (
+    "nomt_core::proof::path_proof::VerifiedPathProof::confirm_value",
+    "nomt_core::proof::multi_proof::VerifiedMultiProof::confirm_value",
+    "nomt_core::proof::multi_proof::VerifiedMultiProof::confirm_value_with_index",
+)
+LEAF = "nomt_core::trie::LeafData"
+
+
+def s5(facts, rep):
+    n = 0
+    for fn in S5_ENTRIES:
+        if fn not in facts.bodies:
+            raise CheckBroken("ANCHOR-MISSING function %s" % fn)
+        region, st_, seen_r = [], [(fn, 0)], set()
+        while st_:
+            cur, dp = st_.pop()
+            cb = facts.bodies.get(cur)
+            if cur in seen_r or cb is None or cb.crate != "nomt_core":
+                continue
+            seen_r.add(cur)
+            region.append(cb)
+            if dp < 2:
+                for (_b, c2, _t, k2) in facts.callees(cb):
+                    if k2 in ("call", "closure"):
+                        st_.append((c2, dp + 1))
+        whole = False
+        fields = set()
+        for body in region:
+            for b, t in body.calls():
+                c = t.get("callee") or ""
+                if not (c.endswith("::eq") or c.endswith("::ne")) or "PartialEq" not in (c + (t.get("orig") or "")) or len(t["args"]) < 2:
+                    continue
+                tys = [body.op_ty(a) for a in t["args"][:2]]
+                if all(LEAF in ty for ty in tys):
+                    whole = True
+                    continue
+                # whole-array comparisons of single fields
+                if all(re.sub(r"[&' a-z_]*", "", ty.replace("mut", "")).startswith("[u8;32]") or "[u8; 32]" in ty for ty in tys):
+                    for a in t["args"][:2]:
+                        for r in trace(body, a):
+                            for (f, o) in r.path:
+                                if o == LEAF:
+                                    fields.add(f)
+        short = fn.split("::", 1)[1]
+        n += 1
+        ok = whole or {"key_path", "value_hash"} <= fields
+        rep.check(ok, "S5", short, "compares-whole-leaf", "%s does not compare the full expected leaf (key path AND value hash) with the proven terminal (whole-LeafData equality: %s; fields compared as whole arrays: %s): a key that merely shares the terminal's prefix is confirmed with the terminal's value" % (short, whole, sorted(fields)), site=facts.bodies[fn].span, detail="LeafData == LeafData" if whole else "fields %s" % sorted(fields))
     return n
